@@ -34,7 +34,8 @@ def reported (fe : FrontEnd) (v : Verdict) : Verdict :=
 
 theorem outcome_data_iff (fe : FrontEnd) (v : Verdict) (d : Nat) (o : Outcome) (d' : Nat)
     (h : validatorOutcome fe v d = some o) : o = .data d' ↔ (d' = d ∧ Accepting v) := by
-  cases fe <;> cases v <;> simp [validatorOutcome] at h <;> subst h <;> simp [Accepting] <;> omega
+  rw [validatorOutcome_eq_ref] at h
+  cases fe <;> cases v <;> simp [validatorOutcomeRef] at h <;> subst h <;> simp [Accepting] <;> omega
 
 /-- **data_only_if_accepted.** If the awaitable returned the content of Data `d` then - in every history: lifetime 0,
     late awaits and same-turn ties included - a Data with that content matching the Interest arrived while it was
@@ -82,8 +83,9 @@ theorem other_verdict_failure (fe : FrontEnd) (evs : List Ev) (i : Nat) (I : Int
   obtain ⟨t0, ⟨d', a, h1, h2, h3, h4⟩, ht⟩ := hJ
   have hv : d' = d ∧ ¬ Accepting I.verdict ∧ v' = reported fe I.verdict := by
     have h3' : validatorOutcome fe I.verdict d' = some (.valFail d v') := h3
+    rw [validatorOutcome_eq_ref] at h3'
     revert h3'
-    cases fe <;> cases I.verdict <;> simp [validatorOutcome, Accepting, reported] <;> intro a b <;> simp [a, b]
+    cases fe <;> cases I.verdict <;> simp [validatorOutcomeRef, Accepting, reported] <;> intro a b <;> simp [a, b]
   obtain ⟨h5, h6, h7⟩ := hv
   subst h5
   exact ⟨h6, h7, a, t0, h1, h2, ht, h4, fun hn => taken_before_deadline fe evs hn hr h1⟩
@@ -162,6 +164,50 @@ example : (run .v2 [.express [1] none false 100 .pass 300 0 false, .data [1] 1 0
 
 /-! ### incoming Interests -/
 
+/-- the verdicts that reach the handler, as the proofs below use them; `lets_eq_ref` evaluates the generated
+    `delivers` entries of both front-ends to it -/
+def letsRef : Verdict → Bool
+  | .pass => true
+  | .allowBypass => true
+  | _ => false
+
+theorem lets_eq_ref (fe : FrontEnd) (v : Verdict) : Gate.lets fe v = letsRef v := by cases fe <;> cases v <;> rfl
+
+/-- the gate with today's values of the generated table written out -/
+def onInterestRef (fe : FrontEnd) (dflt : Verdict) (p : IntPkt) : Route → List Act
+  | .none => []
+  | .noCallback => []
+  | .handler val =>
+    let sigRequired := p.hasParams || p.hasSig
+    if sigRequired && !p.digestOk then [.digestCheck]
+    else
+      let pre := if sigRequired then [Act.digestCheck] else []
+      match fe with
+      | .v2 =>
+        if sigRequired then
+          match val with
+          | some v => pre ++ [.validate] ++ (if letsRef v then [.handle] else [])
+          | none => pre
+        else pre ++ [.handle]
+      | .v1 =>
+        if p.hasSig then
+          let v := match val with | some v => v | none => dflt
+          pre ++ [.validate] ++ (if letsRef v then [.handle] else [])
+        else pre ++ [.handle]
+
+/-- evaluation of the generated gate table (`Gen.C05.v1`, `Gen.C05.v2`): closed by computation, so a source edit that
+    changes `digestWhen` / `validateWhen` / `noValidatorAs` / `plain` / `delivers` stops this - and every theorem
+    below - from checking -/
+theorem onInterest_eq_ref (fe : FrontEnd) (dflt : Verdict) (p : IntPkt) (r : Route) :
+    onInterest fe dflt p r = onInterestRef fe dflt p r := by
+  cases r with
+  | none => rfl
+  | noCallback => rfl
+  | handler val =>
+    obtain ⟨a, b, c⟩ := p
+    cases fe <;> cases a <;> cases b <;> cases c <;> cases val <;>
+      simp [onInterest, onInterestRef, lets_eq_ref, Gate.shape, Gen.C05.v1, Gen.C05.v2, Src.SigReq.holds, Verdict.ofVR] <;> rfl
+
 /-- **interest_digest_gate.** An Interest that carries ApplicationParameters or a signature and whose parameters digest
     is wrong is dropped right after the digest check: no validator is consulted, no handler runs (both front-ends,
     every route). -/
@@ -169,11 +215,11 @@ theorem interest_digest_gate (fe : FrontEnd) (dflt : Verdict) (p : IntPkt) (r : 
     (hreq : p.hasParams = true ∨ p.hasSig = true) (hbad : p.digestOk = false) :
     Act.validate ∉ onInterest fe dflt p r ∧ Act.handle ∉ onInterest fe dflt p r := by
   cases r with
-  | none => simp [onInterest]
-  | noCallback => simp [onInterest]
+  | none => simp [onInterest_eq_ref, onInterestRef]
+  | noCallback => simp [onInterest_eq_ref, onInterestRef]
   | handler val =>
     have : (p.hasParams || p.hasSig) = true := by rcases hreq with h | h <;> simp [h]
-    simp [onInterest, this, hbad]
+    simp [onInterest_eq_ref, onInterestRef, this, hbad]
 
 /-- **interest_validated_before_handler (current front-end).** An Interest that carries ApplicationParameters or a
     signature reaches its handler only if the route has a validator, that validator accepted it (`PASS` /
@@ -184,15 +230,15 @@ theorem interest_validated_before_handler_v2 (dflt : Verdict) (p : IntPkt) (r : 
     onInterest .v2 dflt p r = [.digestCheck, .validate, .handle] := by
   have hreq' : (p.hasParams || p.hasSig) = true := by rcases hreq with h | h <;> simp [h]
   cases r with
-  | none => simp [onInterest] at hh
-  | noCallback => simp [onInterest] at hh
+  | none => simp [onInterest_eq_ref, onInterestRef] at hh
+  | noCallback => simp [onInterest_eq_ref, onInterestRef] at hh
   | handler val =>
     cases hd : p.digestOk with
-    | false => simp [onInterest, hreq', hd] at hh
+    | false => simp [onInterest_eq_ref, onInterestRef, hreq', hd] at hh
     | true =>
       cases val with
-      | none => simp [onInterest, hreq', hd] at hh
-      | some v => cases v <;> simp [onInterest, hreq', hd, lets, Accepting] at hh ⊢
+      | none => simp [onInterest_eq_ref, onInterestRef, hreq', hd] at hh
+      | some v => cases v <;> simp [onInterest_eq_ref, onInterestRef, hreq', hd, letsRef, Accepting] at hh ⊢
 
 /-- **interest_validated_before_handler (legacy front-end).** A *signed* Interest reaches its handler only if the
     validator in force - the route's, or the application-wide default when the route has none - returned a true value,
@@ -204,15 +250,15 @@ theorem interest_validated_before_handler_v1 (dflt : Verdict) (p : IntPkt) (r : 
     onInterest .v1 dflt p r = [.digestCheck, .validate, .handle] := by
   have hreq' : (p.hasParams || p.hasSig) = true := by simp [hsig]
   cases r with
-  | none => simp [onInterest] at hh
-  | noCallback => simp [onInterest] at hh
+  | none => simp [onInterest_eq_ref, onInterestRef] at hh
+  | noCallback => simp [onInterest_eq_ref, onInterestRef] at hh
   | handler val =>
     cases hd : p.digestOk with
-    | false => simp [onInterest, hreq', hd] at hh
+    | false => simp [onInterest_eq_ref, onInterestRef, hreq', hd] at hh
     | true =>
       cases val with
-      | none => cases dflt <;> simp [onInterest, hd, hsig, lets, Accepting] at hh ⊢
-      | some v => cases v <;> simp [onInterest, hd, hsig, lets, Accepting] at hh ⊢
+      | none => cases dflt <;> simp [onInterest_eq_ref, onInterestRef, hd, hsig, letsRef, Accepting] at hh ⊢
+      | some v => cases v <;> simp [onInterest_eq_ref, onInterestRef, hd, hsig, letsRef, Accepting] at hh ⊢
 
 /-- every non-accepting answer of the validator in force (all `ValidResult` values other than `PASS` /
     `ALLOW_BYPASS`, and a validator that raises) keeps the Interest from the handler -/
@@ -220,14 +266,14 @@ theorem interest_rejected_by_verdict (dflt : Verdict) (p : IntPkt) (v : Verdict)
     (hreq : p.hasParams = true ∨ p.hasSig = true) (hv : ¬ Accepting v) :
     Act.handle ∉ onInterest .v2 dflt p (.handler (some v)) := by
   have hreq' : (p.hasParams || p.hasSig) = true := by rcases hreq with h | h <;> simp [h]
-  cases hd : p.digestOk <;> cases v <;> simp [onInterest, hreq', hd, lets, Accepting] at hv ⊢
+  cases hd : p.digestOk <;> cases v <;> simp [onInterest_eq_ref, onInterestRef, hreq', hd, letsRef, Accepting] at hv ⊢
 
 /-- **plain_interest_no_validator.** An Interest without ApplicationParameters and without signature is delivered to
     the handler of its route without digest check and without consulting any validator (both front-ends). -/
 theorem plain_interest_no_validator (fe : FrontEnd) (dflt : Verdict) (p : IntPkt) (val : Option Verdict)
     (h1 : p.hasParams = false) (h2 : p.hasSig = false) :
     onInterest fe dflt p (.handler val) = [.handle] := by
-  cases fe <;> simp [onInterest, h1, h2]
+  cases fe <;> simp [onInterest_eq_ref, onInterestRef, h1, h2]
 
 /-! ### the hypotheses are satisfiable -/
 
@@ -256,5 +302,76 @@ example : (run .v1 [.express [1] none false 100 .fail 0 60 false, .tick 20, .dat
 example : allowed .v2 [⟨0, [.express [1] none false 100 .fail 0 0 false]⟩, ⟨100, [.data [1] 1 5]⟩] =
     [[.done .timeout 100], [.done (.valFail 5 .fail) 100], [.done .timeout 100], [.done (.valFail 5 .fail) 100]] := by
   decide
+
+/-! ### what the models take from the source text
+
+`Ndn.Gen.C05` (lean/NdnGen/C05.lean: the gate of both `_on_interest`, `types.ValidResult`, the two digest checkers) and
+the verdict part of `Ndn.Gen.C03` (lean/NdnGen/C03.lean: `PendingIntEntry.satisfy`, legacy `_wait_for_data`) are
+regenerated from the source by every check run (`harness/props/pit_extract.py`, `ast` only).  `Gate.onInterest` and
+`Pit.validatorOutcome` compute with them (`onInterest_eq_ref`, `validatorOutcome_eq_ref` evaluate them), so the
+theorems above are about the generated values; the remaining shapes are pinned entry by entry. -/
+
+/-- `class ValidResult(Enum)`: exactly these five members with these values; `ValidationFailure` defaults to `FAIL` -/
+theorem gen_valid_result :
+    Gen.C05.validResult = [(.fail, -2), (.timeout, -1), (.silence, 0), (.pass, 1), (.allowBypass, 2)] ∧
+    Gen.C05.validResultNames = ["FAIL", "TIMEOUT", "SILENCE", "PASS", "ALLOW_BYPASS"] ∧
+    Gen.C05.failureDefault = .fail := by decide
+
+/-- Data: only `PASS` and `ALLOW_BYPASS` reach `set_result` (current); a true value (legacy).  `TimeoutError` /
+    `CancelledError` of the validator read as `TIMEOUT`, nothing else is caught; the "future already done" guard sits
+    between the validator call and completing the future -/
+theorem gen_data_delivers :
+    Gen.C03.v2.dataDelivers = .only [.pass, .allowBypass] ∧ Gen.C03.v1.dataDelivers = .truthy ∧
+    Gen.C03.v2.dataCaught = [.timeoutError, .cancelledError] ∧ Gen.C03.v2.dataCaughtAs = .timeout ∧
+    Gen.C03.v1.dataCaught = [] ∧ Gen.C03.v2.dataNoValidator = "valid = ValidResult.FAIL" ∧
+    Gen.C03.v1.dataNoValidator = "validator = self.data_validator" ∧
+    Gen.C03.nodeV2.satisfyDone = "if self.future.cancelled() or self.future.done(): return" ∧
+    Pit.tableOk = true := by decide
+
+/-- Interests: only `PASS` and `ALLOW_BYPASS` reach the handler (current); a true value (legacy).  A route without
+    validator is `FAIL` without consulting anything (current) / falls back to the application-wide validator (legacy);
+    an Interest that needs no validation is `PASS` / `True` -/
+theorem gen_interest_delivers :
+    Gen.C05.v2.delivers = .only [.pass, .allowBypass] ∧ Gen.C05.v1.delivers = .truthy ∧
+    Gen.C05.v2.noValidatorAs = some .fail ∧ Gen.C05.v2.noValidator = "valid = ValidResult.FAIL" ∧
+    Gen.C05.v1.noValidatorAs = none ∧
+    Gen.C05.v1.noValidator = "validator = node.validator if node.validator else self.int_validator" ∧
+    Gen.C05.v2.plain = .pass ∧ Gen.C05.v1.plain = .pass ∧ Gate.tableOk = true := by decide
+
+/-- the order of the gate: route lookup, callback test, digest check, validator, handler - in both front-ends -/
+theorem gen_gate_order :
+    Gen.C05.v2.order = ["route", "callback", "digest", "validate", "handle"] ∧
+    Gen.C05.v1.order = ["route", "callback", "digest", "validate", "handle"] := by decide
+
+/-- when the steps are required: the digest check for ApplicationParameters or a signature (both); the validator for
+    the same (current) / for a signature only (legacy); a failed digest check returns at once -/
+theorem gen_gate_when :
+    Gen.C05.v2.digestWhen = .paramsOrSig ∧ Gen.C05.v1.digestWhen = .paramsOrSig ∧
+    Gen.C05.v2.validateWhen = .paramsOrSig ∧ Gen.C05.v1.validateWhen = .sigOnly ∧
+    Gen.C05.v2.digestFail = "if not await params_sha256_checker(name, sig): return" ∧
+    Gen.C05.v1.digestFail = Gen.C05.v2.digestFail ∧
+    Gen.C05.v2.validatorArgs = "name, sig, context" ∧ Gen.C05.v1.validatorArgs = "name, sig" := by decide
+
+/-- `params_sha256_checker` / `sha256_digest_checker`: the computed SHA-256 is compared with `==` against the whole
+    value in the packet, an empty covered part or value fails, over these `SignaturePtrs` fields; the legacy default
+    validators are `sha256_digest_checker`, which passes every packet that is not DigestSha256-signed -/
+theorem gen_digest_checkers :
+    Gen.C05.paramsCmp = .fullEq ∧ Gen.C05.digestCmp = .fullEq ∧
+    Gen.C05.paramsEmpty = "if not covered_part or not sig_value: ret = False" ∧ Gen.C05.digestEmpty = Gen.C05.paramsEmpty ∧
+    Gen.C05.paramsFields = ["sig.digest_covered_part", "sig.digest_value_buf"] ∧
+    Gen.C05.digestFields = ["sig.signature_covered_part", "sig.signature_info", "sig.signature_value_buf"] ∧
+    Gen.C05.digestScope = "checks when SignatureType.DIGEST_SHA256 == sig_info.signature_type and sig_info; otherwise: return True" ∧
+    Gen.C05.legacyDefaults = ["self.data_validator = sha256_digest_checker", "self.int_validator = sha256_digest_checker"] := by
+  decide
+
+/-- **the digest gate is exact.** With the comparison found in the source, `params_sha256_checker` accepts a computed
+    digest exactly when it equals the ParametersSha256DigestComponent value - not a prefix of it, not a longer string
+    starting with it (what `IntPkt.digestOk` stands for in `interest_digest_gate`). -/
+theorem digest_check_exact (computed value : Bytes) : paramsChecker computed value = true ↔ computed = value := by
+  show Src.BytesCmp.holds .fullEq computed value = true ↔ _
+  simp [Src.BytesCmp.holds]
+
+example : paramsChecker [1, 2, 3] [1, 2] = false := by decide
+example : Src.BytesCmp.holds .zipAll [1, 2, 3] [1, 2] = true := by decide
 
 end Ndn.C05
